@@ -2,7 +2,7 @@ use crate::Error;
 use serde::{Deserialize, Deserializer};
 use serde_json::Value as JsonValue;
 use serde_yaml::Value as YamlValue;
-use std::collections::VecDeque;
+use std::collections::{HashSet, VecDeque};
 
 #[derive(Debug)]
 struct CustomYamlValue {
@@ -44,6 +44,8 @@ fn collect_tagged_keys(
         YamlValue::Mapping(map) => {
             // rebuild the mapping with plain keys: a tagged key is reported and its tag dropped
             let mut untagged = serde_yaml::Mapping::new();
+            // the member names of the JSON object this mapping becomes
+            let mut names = HashSet::new();
             for (key, mut value) in std::mem::take(map) {
                 match key {
                     YamlValue::Tagged(tag) if tag.tag == "!sd" => {
@@ -58,13 +60,15 @@ fn collect_tagged_keys(
                         collect_tagged_keys(&mut value, path, paths)?;
                         path.pop_back();
                         paths.push(build_full_path(path, &escape_segment(&key_str)));
-                        insert_unique(&mut untagged, key_str, value)?;
+                        claim_name(&mut names, &key_str)?;
+                        untagged.insert(YamlValue::String(key_str), value);
                     }
                     YamlValue::String(key_str) => {
                         path.push_back(escape_segment(&key_str));
                         collect_tagged_keys(&mut value, path, paths)?;
                         path.pop_back();
-                        insert_unique(&mut untagged, key_str, value)?;
+                        claim_name(&mut names, &key_str)?;
+                        untagged.insert(YamlValue::String(key_str), value);
                     }
                     key => {
                         // a number, boolean or null used as a key names its member by its text in the
@@ -76,6 +80,7 @@ fn collect_tagged_keys(
                             _ => None,
                         };
                         if let Some(name) = name {
+                            claim_name(&mut names, &name)?;
                             path.push_back(escape_segment(&name));
                             collect_tagged_keys(&mut value, path, paths)?;
                             path.pop_back();
@@ -125,22 +130,19 @@ fn collect_tagged_keys(
     Ok(())
 }
 
-// Without its tag a key may be the same as another key of the mapping. The same document without tags
-// is refused for its repeated key, so the tagged one is refused too instead of letting one value
-// replace the other.
-fn insert_unique(
-    mapping: &mut serde_yaml::Mapping,
-    key: String,
-    value: YamlValue,
-) -> Result<(), Error> {
-    if mapping.contains_key(key.as_str()) {
-        return Err(Error::YamlInvalidSDTag(format!(
-            "key {} occurs twice once the !sd tag is removed",
-            key
-        )));
+// Two keys of one mapping may name the same member of the JSON claims: a key and the same key with an
+// !sd tag, or a number and the string that spells it (`1` and "1"). One value would silently replace
+// the other and reported paths would point at the wrong node or at none, so such a mapping is refused,
+// as a mapping that repeats a plain key is.
+fn claim_name(names: &mut HashSet<String>, name: &str) -> Result<(), Error> {
+    if names.insert(name.to_string()) {
+        Ok(())
+    } else {
+        Err(Error::YamlInvalidSDTag(format!(
+            "two keys of one mapping name the member {}",
+            name
+        )))
     }
-    mapping.insert(YamlValue::String(key), value);
-    Ok(())
 }
 
 // a reported path is a JSON pointer (RFC 6901): '~' and '/' inside a key are escaped
